@@ -79,9 +79,9 @@ structure G where
   exits : List (Nat × Phase)
   thr : List Pc
   /-- the group entries held by a `join_scoped` in the middle of its entry-lock region, each with the
-  holder's local variables: the call's `actors` and its `accepted` set so far (reverse index already
-  updated, forward insert still to come) -/
-  locks : List (Key × (List Nat × List Nat))
+  holding thread and its local variables: the call's `actors` and its `accepted` set so far (reverse
+  index already updated, forward insert still to come) -/
+  locks : List (Key × (Nat × List Nat × List Nat))
   /-- ghost: every notification sent so far -/
   sent : List Ev
   /-- ghost: one record per membership change, recipients read at the instant of the change -/
@@ -91,9 +91,9 @@ structure G where
 def phaseOf (g : G) (a : Nat) : Phase := (get g.exits a).getD .live
 
 /-- the actors a `join_scoped` holding entry `k` has accepted so far -/
-def accOf (g : G) (k : Key) : List Nat := ((get g.locks k).map (·.2)).getD []
+def accOf (g : G) (k : Key) : List Nat := ((get g.locks k).map (·.2.2)).getD []
 /-- the actors that call was given (after the unlocked filter) -/
-def asOf (g : G) (k : Key) : List Nat := ((get g.locks k).map (·.1)).getD []
+def asOf (g : G) (k : Key) : List Nat := ((get g.locks k).map (·.2.1)).getD []
 def locked (g : G) (k : Key) : Bool := (get g.locks k).isSome
 
 /-- `entry(key).or_default()` with nothing added: the group entry exists afterwards -/
@@ -202,13 +202,13 @@ def step (g : G) : Tid → G
       match pc with
       | .joinFiltered s g' as =>
         -- `joinLock`: `map.entry(key).or_default()`
-        { g with st := touchGroup g.st (s, g'), locks := set g.locks (s, g') (as, []),
+        { g with st := touchGroup g.st (s, g'), locks := set g.locks (s, g') (i, as, []),
                  thr := g.thr.set i (.joinIn s g' as as.eraseDups) }
       | .joinIn s g' as (x :: todo) =>
-        -- (`x` comes from the call's own `actors`: `x ∈ asOf …` always holds on a real run)
+        -- (`x` comes from the call's own `actors`: the second conjunct always holds — `C11.conc_join_guard_vacuous`)
         let ok := alive g.st x && (asOf g (s, g')).contains x
         { g with st := if ok then joinOne g.st (s, g') x else g.st,
-                 locks := if ok then set g.locks (s, g') (asOf g (s, g'), accOf g (s, g') ++ [x]) else g.locks,
+                 locks := if ok then set g.locks (s, g') (i, asOf g (s, g'), accOf g (s, g') ++ [x]) else g.locks,
                  thr := g.thr.set i (.joinIn s g' as todo) }
       | .joinIn s g' as [] =>
         let joined := (asOf g (s, g')).filter (accOf g (s, g')).contains
